@@ -223,7 +223,7 @@ def run(tier, replay=None):
             cid = "t%d" % i
         src = 'rule r { strings: $a = "%s" %s condition: #a >= 0 }' % (esc(s), mods_text(m))
         cases.append(dict(id=cid, s=hx(s), mods=mods_text(m), buf=hx(buf), private=m["private"], xor=m["xor"]))
-        hl.append("%s src=%s buf=%s" % (cid, hx(src.encode()), hx(buf)))
+        hl.append("%s src=%s atoms=1 cands=1 buf=%s" % (cid, hx(src.encode()), hx(buf)))
         dl.append("%s mods=%s s=%s buf=%s" % (cid, mods_tok(m), hx(s), hx(buf)))
     if replay:
         cases, hl, dl = [replay["case"]], [replay["harness_line"]], [replay["driver_line"]]
@@ -234,7 +234,22 @@ def run(tier, replay=None):
         found = True
     model = []
     nontrivial, nmatch, nviol, errs, khits = set(), 0, 0, {}, {}
+    certs = {"cases": 0, "atoms_ok": 0, "ac_ok": 0, "windows": {}}
     if lres.get("driver_ok"):
+        # second phase: hand the atoms/candidates the real engine produced (hooks H3/H4) to the Lean model
+        himpl = {l.split(" ", 1)[0]: l for l in impl}
+        dl2 = []
+        for d in dl:
+            cid = d.split(" ", 1)[0]
+            il = himpl.get(cid, "")
+            at = [t for t in il.split() if t.startswith("atoms=")]
+            ca = [t for t in il.split() if t.startswith("cands=")]
+            if at and ca:
+                atoms = "-" if at[0] == "atoms=-" else ",".join("%s:%s" % (a.split(":")[1], a.split(":")[3]) for a in at[0][6:].split(","))
+                cands = "-" if ca[0] == "cands=-" else ",".join(c.split("@")[1] for c in ca[0][6:].split(","))
+                d = "%s atoms=%s cands=%s" % (d, atoms, cands)
+            dl2.append(d)
+        dl = dl2
         model, _, _ = core.run_parallel([core.driver_path(), "text"], dl)
         mi = {l.split(" ", 1)[0]: l for l in impl}
         mm = {l.split(" ", 1)[0]: l for l in model}
@@ -252,6 +267,20 @@ def run(tier, replay=None):
                     nviol += 1; found = True
                 continue
             viol, known = classify(got, ml, c.get("xor"))
+            mt = {t.split("=", 1)[0]: t.split("=", 1)[1] for t in ml.split()[1:] if "=" in t}
+            if "model" in mt:
+                certs["cases"] += 1
+                if "m=" + mt["model"] != got:
+                    viol.append("intensional: Lean model of verify+insert on the real candidates gives %s" % mt["model"])
+                if mt.get("atomsw") == "NONE":
+                    viol.append("certificate: indexed atoms are not atomsOf w m s for any valid window w (atoms_cover does not apply)")
+                else:
+                    certs["atoms_ok"] += 1
+                    certs["windows"][mt.get("atomsw")] = certs["windows"].get(mt.get("atomsw"), 0) + 1
+                if mt.get("acexact") != "1":
+                    viol.append("certificate: automaton candidates are not exactly the occurrences of the indexed atoms")
+                else:
+                    certs["ac_ok"] += 1
             if priv and not all(p == c["private"] for p in priv):
                 viol.append("private flag wrong")
             for fid, what in known:
@@ -276,6 +305,7 @@ def run(tier, replay=None):
             chk.known(listed[fid], "%s %s (%d cases this run, e.g. case %s: %s)" % (fid, listed[fid]["text"][:110], len(hits), hits[0][0], hits[0][1]))
         else:
             chk.violation("unlisted_%s.json" % fid, {"kind": "deviation class %s is not a listed known finding" % fid, "hits": hits[:5]})
+    chk.cov["certificates"] = certs
     chk.cov["known_finding_hits"] = {k: len(v) for k, v in khits.items()}
     core.handle_broken_proof(chk, lres, found)
     return chk.finish("proof")
